@@ -23,11 +23,14 @@ CLAIM = {
             "the length check; (3) FaceAttrs::names() and Face::from_str_named are inverse tables (10 attribute names through the bit "
             "constants and the underline decoder, fg/bg keys, ',' and '=' separators) and Face/KeyChord-style string serde goes through "
             "exactly Display and the parser; (4) for every struct that a from_json_value/visitor builds, every literal site (deserialiser "
-            "or builder sibling) applies the validation filters that any sibling applies to the same field (FlexChild.flex > 0). NOT decided: equality of values after a round trip "
-            "(pixels, colours, floats, base64/deflate payload), recursion depth, and panic/overflow freedom of the numeric code "
-            "(channels*height*width, layout arithmetic) — left to the abstract-interpreter hook.",
+            "or builder sibling) applies the validation filters that any sibling applies to the same field (FlexChild.flex > 0). (5) TOTAL: every overflow/bounds/unwrap/panic!/precondition "
+            "obligation reachable from the serde visitors, DeserializeSeed impls and from_json_value functions is discharged by abstract interpretation "
+            "or by the IMAGE-LAYOUT / IMAGE-SIZE lemmas, whose side conditions (checked product compared with data.len() before the surface is "
+            "allocated; layout arms) are rules of this module. NOT decided: equality of values after a round trip "
+            "(pixels, colours, floats, base64/deflate payload), recursion depth; panic freedom of laying out the deserialised tree is C10's TOTAL.",
     "technique": "serializer key constants and value provenance from MIR, visitor match-arm tables and struct-literal sites from the syn "
-                 "dump, row-by-row table agreement; CFG dominance for required/conditional keys",
+                 "dump, row-by-row table agreement; CFG dominance for required/conditional keys; abstract interpretation of MIR with "
+                 "structurally checked lemmas for the panic/overflow obligations",
     "design_ref": "DESIGN.md §5 C19",
 }
 
@@ -299,10 +302,73 @@ def eval_const(e, env):
 
 # ------------------------------------------------------------------------------------------------
 def obligations(ctx):
-    """HOOK (not implemented here): no reachable panic/overflow in the visitors and from_json_value functions by abstract
-    interpretation (DESIGN §5 C19 (a)); e.g. Image visitor `channels * size.height * size.width` (sizes 2^32 x 2^32),
-    flex_layout `unused / children.len()` for an empty JSON flex with justify space-around."""
-    pass
+    """"never panics or overflows": every overflow/bounds/unwrap/panic!/precondition obligation reachable from the deserialisation entry points
+    (serde visitors, DeserializeSeed impls, from_json_value functions) is discharged by the abstract interpreter, or by two lemmas whose side
+    conditions are structural rules of this module:
+      IMAGE-LAYOUT  index N*(row*width+col)+k < N*height*width == data.len(): IMAGE-CHANNELS established the layout arms and the preceding length check;
+      IMAGE-SIZE    height*width fits usize where the image surface is allocated: the visitor compared data.len() with the *checked* product
+                    channels*height*width (channels >= 1) on every path to SurfaceOwned::new_with, its only caller in this reach set."""
+    from .. import oblrules
+    from ..flow import expr
+    prog = ctx.prog
+    entries = [b.path for b in prog.bodies if b.file.startswith("src/") and "{closure" not in b.path and
+               re.search(r"::visit_(map|seq|str)$|from_json_value$|DeserializeSeed<'de>>::deserialize$|Deserialize<'de>>::deserialize$|Deserialize<'de> for [\w:]+>::deserialize$", b.path)]
+    lemmas = {}
+    vm = [b for b in prog.bodies if re.search(r"ImageVistor as .*Visitor<'de>>::visit_map$", b.path)]
+    chan_ok = not any(v.rule == "IMAGE-CHANNELS" for v in ctx.violations)
+    ctx.rule("IMAGE-SIZE", "Image visitor: data.len() is compared with the checked product channels*height*width on every path to SurfaceOwned::new_with; "
+                           "new_with and Shape::from(Size) have no other caller among the deserialisation paths", floor=4)
+    if len(vm) == 1:
+        v = vm[0]
+        vcfg = v.cfg()
+        cmpb = None
+        for bb, t in v.calls():
+            if call_matches(t, r"^std::cmp::PartialEq::(ne|eq)$|PartialEq.*>::(ne|eq)$"):
+                es = [expr(v, a) for a in t["args"]]
+                if any("Vec::len(" in e for e in es) and any(len(re.findall(r"checked_mul", e)) >= 1 and "and_then" in e for e in es):
+                    cmpb = (bb, t, es)
+        nw = [(bb, t) for bb, t in v.calls() if call_matches(t, r"^surface::SurfaceOwned::<T>::new_with$")]
+        ok_dom = cmpb is not None and bool(nw) and all(vcfg.dominates(cmpb[0], bb) for bb, t in nw)
+        # the second factor is multiplied inside the and_then closure with checked_mul as well
+        cl = [b for b in prog.bodies if b.closure_root == v.path and any(call_matches(t, r"::checked_mul$") for bb, t in b.calls())]
+        ok_chk = cmpb is not None and len(cl) >= 1
+        ctx.instance("IMAGE-SIZE", {"length_comparison": cmpb[2] if cmpb else None, "dominates_new_with_calls": ok_dom, "second_factor_checked": ok_chk})
+        sites = [v.loc]
+        if not (ok_dom and ok_chk):
+            ctx.violation("IMAGE-SIZE", v.path, "unchecked-size", "the image visitor does not compare data.len() with the checked product channels*height*width before allocating the surface: "
+                          "size [2^32, 2^32] overflows height*width", sites=sites)
+        size_ok = ok_dom and ok_chk
+    else:
+        ctx.anchor("IMAGE-SIZE", "Image::visit_map")
+        size_ok = False
+        v = None
+
+    def scope(b):
+        return b.file.startswith("src/")
+
+    cg = prog.callgraph()
+    dyn, _init = cg.reach_split([e for e in entries if prog.body(e) is not None])
+    NW, SF = "surface::SurfaceOwned::<T>::new_with", "<surface::Shape as std::convert::From<terminal::Size>>::from"
+    if v is not None:
+        c1 = sorted(c for c in cg.callers(NW) if c in dyn)
+        c2 = sorted(c for c in cg.callers(SF) if c in dyn)
+        ok1, ok2 = c1 == [v.path], c2 == [NW]
+        ctx.instance("IMAGE-SIZE", {"callers_of_new_with_in_reach": c1, "ok": ok1})
+        ctx.instance("IMAGE-SIZE", {"callers_of_Shape_from_in_reach": c2, "ok": ok2})
+        if size_ok and ok1:
+            lemmas[(NW, "OVF")] = ("IMAGE-SIZE", "height*width divides the checked product channels*height*width (channels in {1,3,4}), which equals data.len()")
+            if ok2:
+                lemmas[(SF, "OVF")] = ("IMAGE-SIZE", "same size as in new_with, its only caller here")
+        if chan_ok and size_ok:
+            for b in prog.bodies:
+                if b.closure_root == v.path and any(call_matches(t, r"ops::Index<I>>::index$") for bb, t in b.calls()):
+                    for kind in ("OVF", "BOUNDSCALL"):
+                        lemmas[(b.path, kind)] = ("IMAGE-LAYOUT", "offset N*(row*width+col)+k with row < height, col < width (new_with's loops), k < N is below N*height*width == data.len() "
+                                                                  "(length check and layout arms established by IMAGE-CHANNELS)")
+    ctx.instance("IMAGE-SIZE", {"lemmas_enabled": sorted({v_[0] for v_ in lemmas.values()})})
+    oblrules.run(ctx, "TOTAL", entries, lossy=False, lemmas=lemmas, floor_bodies=3, scope=scope,
+                 desc="deserialisation never panics or overflows: no reachable overflow/bounds/unwrap/panic!/precondition failure from the serde visitors, "
+                      "DeserializeSeed impls and from_json_value functions")
 
 
 def run(ctx):
@@ -314,7 +380,8 @@ def run(ctx):
         "(channels constant = bytes written per pixel, accepted by the visitor; each layout arm reads N*(row*width+col)+k, k<N, in rgba order, "
         "behind the data-length check), FACE-NAMES (names() vs from_str_named inverse through bit constants; fg/bg; separators; serde chain), "
         "SIBLING-FILTER (all literal sites of structs built by deserialisers apply the filters any sibling constructor applies). NOT decided: value equality after a round "
-        "trip, recursion depth, numeric panic/overflow freedom (abstract-interpreter hook).")
+        "trip, recursion depth. TOTAL: every panic/overflow/bounds obligation reachable from the deserialisation entry points is discharged (abstract "
+        "interpretation; IMAGE-LAYOUT and IMAGE-SIZE lemmas with structural side conditions); layout/render of the deserialised tree is C10's TOTAL.")
     ctx.assume("serde derive output is taken from MIR (key constants), serde_json ignores the declared map length; rasterize::RGBA Display/FromStr, "
                "RGBA::to_rgba order [r,g,b,a] and serde's own impls are trusted (outside /repo)")
     ctx.assume("Surface::iter yields the view's cells in row-major order of the view's own shape (C07's clause), which is the order the Image visitor reads")
